@@ -86,10 +86,11 @@ def per_step(k, before, call, after, st, sec):
     return O
 
 def jobs(tier, seed):
-    out = hist_jobs(tier, seed, finish=0, extra_starts=(9,))
-    for n in ((1, 2, 3) if tier == 'quick' else (1, 2, 3, 4, 5)):
+    out = []
+    # (the free-rate kernels are the longest single jobs - one to three minutes of floating-point solving each - so they are scheduled first)
+    for n in ((2, 1) if tier == 'quick' else (5, 4, 3, 2, 1)):
         out.append({'entry': 'h_rates', 'harness': 'h_hist.cpp', 'name': 'rates', 'cfg': {'channels': n, 'steps': 2, 'free_point_rate': 0 if tier == 'quick' else 1}})
-    return out
+    return out + hist_jobs(tier, seed, finish=0, extra_starts=(9,))
 
 def rate_obligations(sec, job, st):
     O = []; k = 1
